@@ -16,6 +16,44 @@ impl std::fmt::Debug for Wrap { fn fmt(&self, f: &mut std::fmt::Formatter<'_>) -
 impl std::fmt::Display for Wrap { fn fmt(&self, f: &mut std::fmt::Formatter<'_>) -> std::fmt::Result { f.pad(&match self.0 { Some(c) => c.to_string(), None => "-".to_string() }) } }
 pub struct Lst(Vec<i64>);
 impl std::fmt::Debug for Lst { fn fmt(&self, f: &mut std::fmt::Formatter<'_>) -> std::fmt::Result { f.debug_list().entries(self.0.iter()).finish() } }
+
+// ---- module-level items for language-construct probes
+#[derive(Debug, Clone, PartialEq, Eq, Hash, PartialOrd, Ord, Default)]
+pub struct Pt { pub x: i32, pub y: i32 }
+impl std::ops::Add for Pt { type Output = Pt; fn add(self, o: Pt) -> Pt { Pt { x: self.x + o.x, y: self.y + o.y } } }
+impl std::ops::AddAssign<i32> for Pt { fn add_assign(&mut self, k: i32) { self.x += k; self.y += k; } }
+impl std::ops::Neg for Pt { type Output = Pt; fn neg(self) -> Pt { Pt { x: -self.x, y: -self.y } } }
+impl std::ops::Index<usize> for Pt { type Output = i32; fn index(&self, i: usize) -> &i32 { if i == 0 { &self.x } else { &self.y } } }
+impl std::fmt::Display for Pt { fn fmt(&self, f: &mut std::fmt::Formatter<'_>) -> std::fmt::Result { write!(f, "({}, {})", self.x, self.y) } }
+impl std::str::FromStr for Pt { type Err = String; fn from_str(s: &str) -> Result<Pt, String> { let (a, b) = s.split_once(',').ok_or_else(|| "no comma".to_string())?; Ok(Pt { x: a.trim().parse().map_err(|_| "bad x".to_string())?, y: b.trim().parse().map_err(|_| "bad y".to_string())? }) } }
+impl TryFrom<(i64, i64)> for Pt { type Error = &'static str; fn try_from(t: (i64, i64)) -> Result<Pt, &'static str> { Ok(Pt { x: i32::try_from(t.0).map_err(|_| "x")?, y: i32::try_from(t.1).map_err(|_| "y")? }) } }
+impl From<i32> for Pt { fn from(k: i32) -> Pt { Pt { x: k, y: k } } }
+#[derive(Debug, Clone, PartialEq)]
+pub enum Expr { Num(i64), Neg(Box<Expr>), Add(Box<Expr>, Box<Expr>), Mul(Vec<Expr>), Var { name: String, idx: usize } }
+impl Expr {
+    pub fn eval(&self) -> i64 { match self { Expr::Num(n) => *n, Expr::Neg(e) => -e.eval(), Expr::Add(a, b) => a.eval() + b.eval(), Expr::Mul(v) => v.iter().map(Expr::eval).product(), Expr::Var { idx, .. } => *idx as i64 } }
+    pub fn depth(&self) -> usize { match self { Expr::Num(_) | Expr::Var { .. } => 1, Expr::Neg(e) => 1 + e.depth(), Expr::Add(a, b) => 1 + a.depth().max(b.depth()), Expr::Mul(v) => 1 + v.iter().map(|e| e.depth()).max().unwrap_or(0) } }
+    pub fn parse(cs: &[char], pos: &mut usize) -> Option<Expr> {
+        let c = *cs.get(*pos)?; *pos += 1;
+        match c { '0'..='9' => Some(Expr::Num(c as i64 - 48)), '-' => Some(Expr::Neg(Box::new(Expr::parse(cs, pos)?))), '+' => { let a = Expr::parse(cs, pos)?; let b = Expr::parse(cs, pos)?; Some(Expr::Add(Box::new(a), Box::new(b))) }
+            '*' => { let mut v = vec![]; while *pos < cs.len() && cs[*pos] != ';' { v.push(Expr::parse(cs, pos)?); } *pos += 1; Some(Expr::Mul(v)) } c if c.is_alphabetic() => Some(Expr::Var { name: c.to_string(), idx: *pos }), _ => None }
+    }
+}
+#[derive(Debug)] pub struct E(pub String);
+impl std::fmt::Display for E { fn fmt(&self, f: &mut std::fmt::Formatter<'_>) -> std::fmt::Result { write!(f, "E:{}", self.0) } }
+impl std::error::Error for E {}
+pub struct Countdown(pub u32);
+impl Iterator for Countdown { type Item = u32; fn next(&mut self) -> Option<u32> { if self.0 == 0 { None } else { self.0 -= 1; Some(self.0) } } }
+pub trait Shape { const SIDES: u32; type Unit; fn unit(&self) -> Self::Unit; fn describe(&self) -> String where Self::Unit: std::fmt::Debug { format!("{}:{:?}", Self::SIDES, self.unit()) } }
+pub struct Tri; pub struct Sq(pub char);
+impl Shape for Tri { const SIDES: u32 = 3; type Unit = u8; fn unit(&self) -> u8 { 7 } }
+impl Shape for Sq { const SIDES: u32 = 4; type Unit = char; fn unit(&self) -> char { self.0 } }
+pub fn describe_all<S: Shape>(v: &[S]) -> String where S::Unit: std::fmt::Debug { v.iter().map(|s| s.describe()).collect::<Vec<_>>().join(";") }
+pub static TABLE: [(&str, u8); 3] = [("a", 1), ("bc", 2), ("", 0)];
+pub const LIMIT: usize = 3;
+pub struct Node { pub val: u32, pub next: Option<Box<Node>> }
+pub struct Stack<T> { items: Vec<T> }
+impl<T: Clone + std::fmt::Debug> Stack<T> { pub fn new() -> Self { Stack { items: Vec::new() } } pub fn push(&mut self, t: T) -> &mut Self { self.items.push(t); self } pub fn pop(&mut self) -> Option<T> { self.items.pop() } pub fn peek(&self) -> Option<&T> { self.items.last() } pub fn len(&self) -> usize { self.items.len() } }
 fn nums(s: &str) -> Vec<i64> { s.chars().map(|c| c as i64).collect() }
 fn show<T: std::fmt::Debug>(t: T) -> String { format!("{t:?}") }
 
@@ -71,6 +109,54 @@ probes! {
     str_char_escape = |s| s.chars().map(|c| format!("{c:?}")).collect::<String>();
     str_peek_loop = |s| { let mut it = s.chars().peekable(); let mut o = String::new(); while let Some(c) = it.next() { if let Some(&n) = it.peek() { if n == c { o.push('='); } } o.push(c); } o };
     str_next_if = |s| { let mut it = s.chars().peekable(); let mut n = 0; while it.next_if(|c| c.is_whitespace()).is_some() { n += 1; } format!("{n}{:?}", it.next()) };
+
+    // ---- language constructs
+    lang_casts = |s| { let n = s.len() as i64 - 3; let c = s.chars().next().unwrap_or('é'); format!("{} {} {} {} {} {} {} {}", n as u8, n as i8 as u32, (n * 100) as i16, c as u8, c as u32 as u16, (s.len() as f64 * 1.7) as i32, -1.5f64 as u8, 300.7f32 as u8) };
+    lang_casts2 = |s| { let n = s.len(); format!("{} {} {} {} {}", n as f64 / 3.0, (n as i32 - 5) as f32, (n as u8 as char), true as u8 + (n > 1) as u8, (n as i128 * -3) as i64) };
+    lang_u8_arith = |s| { let b = s.len() as u8; format!("{} {} {} {:?} {}", b.wrapping_mul(77), b.wrapping_sub(1), b.saturating_add(250), b.checked_mul(100), (b as u16) << 8 | 0xff) };
+    lang_overflow_panic = |s| { let b = s.len() as u8; let r = b + 250; format!("{r}") };
+    lang_div_zero = |s| { let n = s.len(); format!("{}", 10 / n) };
+    lang_index_panic = |s| { let v: Vec<char> = s.chars().collect(); format!("{}", v[2]) };
+    lang_slice_panic = |s| format!("{}", &s[1..3]);
+    lang_unwrap_panic = |s| format!("{}", s.find(',').unwrap());
+    lang_expect_err = |s| format!("{}", s.parse::<i32>().expect("number"));
+    lang_arrays = |s| { let a = [s.len(); 4]; let mut b = [[0u8; 3]; 2]; b[1][2] = s.len() as u8; let c: [char; 3] = ['x', 'y', 'z']; format!("{:?}{:?}{}{:?}", a, b, c.len(), &c[1..]) };
+    lang_2d_vec = |s| { let mut g = vec![vec![0usize; 3]; 2]; for (i, c) in s.chars().enumerate().take(6) { g[i / 3][i % 3] = c as usize % 10; } format!("{:?}{}", g, g.iter().map(|r| r.iter().sum::<usize>()).max().unwrap_or(0)) };
+    lang_struct_ops = |s| { let p = Pt { x: s.len() as i32, y: -1 }; let mut q = p.clone() + Pt::from(2); q += 1; let r = -q.clone(); format!("{} {} {:?} {} {} {:?}", p, q, r, r[0], p < q, Pt { x: 9, ..Default::default() }) };
+    lang_from_str = |s| format!("{:?}|{:?}", s.parse::<Pt>(), Pt::try_from((s.len() as i64, 1i64 << 40)));
+    lang_into = |s| { let p: Pt = (s.len() as i32).into(); let t: Result<Pt, _> = (1i64, 2i64).try_into(); let st: String = 'c'.into(); let o: Option<usize> = s.len().into(); format!("{p}{:?}{st}{o:?}", t) };
+    lang_expr_tree = |s| { let cs: Vec<char> = s.chars().collect(); let mut pos = 0; match Expr::parse(&cs, &mut pos) { Some(e) => format!("{} {} {} {:?}", e.eval(), e.depth(), pos, e), None => format!("none@{pos}") } };
+    lang_expr_clone_eq = |s| { let e = Expr::Add(Box::new(Expr::Num(s.len() as i64)), Box::new(Expr::Mul(vec![Expr::Num(2), Expr::Var { name: s.to_string(), idx: 1 }]))); let f = e.clone(); format!("{}{}{}", e == f, e != Expr::Num(1), matches!(&f, Expr::Add(a, _) if **a == Expr::Num(1))) };
+    lang_user_iter = |s| { let c = Countdown(s.len() as u32); let v: Vec<u32> = c.filter(|x| x % 2 == 0).collect(); let t: u32 = Countdown(4).zip(Countdown(3)).map(|(a, b)| a * b).sum(); let mut it = Countdown(2); let a = it.next(); let b = it.by_ref().count(); format!("{v:?}{t}{a:?}{b}") };
+    lang_assoc = |s| format!("{}|{}|{}", describe_all(&[Tri, Tri]), describe_all(&[Sq(s.chars().next().unwrap_or('q'))]), <Sq as Shape>::SIDES + Tri::SIDES);
+    lang_statics = |s| { let hit = TABLE.iter().find(|(k, _)| *k == s).map(|(_, v)| *v); format!("{hit:?}{}{}", TABLE.len(), s.len() > LIMIT) };
+    lang_linked_list = |s| { let mut head: Option<Box<Node>> = None; for c in s.chars().take(4) { head = Some(Box::new(Node { val: c as u32, next: head })); } let mut n = 0; let mut sum = 0; let mut cur = &head; while let Some(node) = cur { n += 1; sum += node.val; cur = &node.next; } if let Some(h) = head.as_mut() { h.val += 1; } format!("{n}{sum}{:?}", head.map(|h| h.val)) };
+    lang_generic_stack = |s| { let mut st: Stack<char> = Stack::new(); for c in s.chars() { if c == ',' { st.pop(); } else { st.push(c).push('.'); } } let l = st.len(); let pk = st.peek().cloned(); format!("{}{:?}{:?}", l, pk, st.pop()) };
+    lang_string_match = |s| match s.trim() { "" => "empty".to_string(), "a" | "ab" => "short".to_string(), t if t.starts_with('<') && t.ends_with('>') => format!("angle{}", t.len()), t if t.len() > 5 => "long".to_string(), _ => "other".to_string() };
+    lang_tuple_match = |s| { let t = (s.len(), s.chars().next(), s.contains(',')); match t { (0, _, _) => "z".into(), (n, Some(c @ 'a'..='z'), false) if n < 3 => format!("lc{c}{n}"), (_, Some(c), true) => format!("comma{c}"), (n, _, _) => format!("n{n}") } };
+    lang_ref_patterns = |s| { let v: Vec<(usize, char)> = s.char_indices().collect(); let mut out = String::new(); for &(i, c) in &v { if i % 2 == 0 { out.push(c); } } for (i, c) in v.iter() { if *i == 1 { out.push(*c); } } if let Some(&(_, ref c)) = v.first() { out.push(*c); } out };
+    lang_mut_refs = |s| { let mut v: Vec<String> = s.split(',').map(String::from).collect(); if let Some(f) = v.first_mut() { f.push('!'); } for x in v.iter_mut().skip(1) { *x = x.trim().to_uppercase(); } let l = v.len(); let last = &mut v[l - 1]; last.insert(0, '#'); { let (a, b) = v.split_at_mut(l / 2); if let (Some(x), Some(y)) = (a.first_mut(), b.first_mut()) { std::mem::swap(x, y); } } v.join("|") };
+    lang_closure_state = |s| { let mut count = 0; let mut seen = Vec::new(); let mut visit = |c: char| { count += 1; if !seen.contains(&c) { seen.push(c); } seen.len() }; let r: Vec<usize> = s.chars().map(|c| visit(c)).collect(); let mk = |k: usize| move |x: usize| x + k; let add2 = mk(2); format!("{r:?}{count}{}", add2(count)) };
+    lang_fn_returning_closure = |s| { fn compose<A, B, C>(f: impl Fn(A) -> B, g: impl Fn(B) -> C) -> impl Fn(A) -> C { move |x| g(f(x)) } let h = compose(|c: char| c as u32, |n: u32| n % 7); s.chars().map(|c| h(c).to_string()).collect::<Vec<_>>().join(",") };
+    lang_recursion = |s| { fn fib(n: u32) -> u64 { if n < 2 { n as u64 } else { fib(n - 1) + fib(n - 2) } } fn ack(m: u32, n: u32) -> u32 { if m == 0 { n + 1 } else if n == 0 { ack(m - 1, 1) } else { ack(m - 1, ack(m, n - 1)) } } format!("{}{}", fib(s.len() as u32 % 15), ack(2, s.len() as u32 % 3)) };
+    lang_loop_break_value = |s| { let cs: Vec<char> = s.chars().collect(); let mut i = 0; let found = loop { if i >= cs.len() { break None; } if cs[i].is_ascii_digit() { break Some(i); } i += 1; }; let lab = 'outer: { for c in &cs { if *c == ',' { break 'outer 1; } } 0 }; format!("{found:?}{lab}") };
+    lang_while_let_pop = |s| { let mut st: Vec<char> = s.chars().collect(); let mut out = String::new(); while let Some(c) = st.pop() { if c == ' ' { continue; } out.push(c); if out.len() > 4 { break; } } out };
+    lang_shadow_blocks = |s| { let x = s.len(); let x = { let y = x * 2; y + 1 }; let x = if x > 5 { x - 5 } else { x }; let s = s.trim(); let s = s.to_string() + "."; format!("{x}{s}") };
+    lang_option_box = |s| { let o: Option<Box<str>> = if s.is_empty() { None } else { Some(s.into()) }; let l = o.as_deref().map(str::len); let b: Box<[char]> = s.chars().collect(); format!("{l:?}{}{:?}", b.len(), b.first()) };
+    lang_i128 = |s| { let n = s.len() as i128; let big = n * 1_000_000_000_000_000_000_000i128; format!("{} {} {}", big, big / 7, (big as u128) >> 70) };
+    lang_shifts = |s| { let n = s.len() as u32; format!("{} {} {} {:?} {}", 1u32 << (n % 32), 0x8000_0000u32 >> (n % 32), (-16i32) >> (n % 5), 1u8.checked_shl(n), 1u64.rotate_left(n)) };
+    lang_float_sort = |s| { let mut v: Vec<f64> = s.split(',').filter_map(|x| x.trim().parse().ok()).collect(); v.sort_by(|a, b| a.partial_cmp(b).unwrap()); v.dedup(); let m = v.iter().cloned().fold(f64::NAN, f64::min); format!("{v:?}{m}") };
+    lang_char_arith = |s| s.chars().map(|c| if c.is_ascii_lowercase() { (((c as u8 - b'a' + 13) % 26) + b'a') as char } else if c.is_ascii_digit() { char::from_digit((c.to_digit(10).unwrap() + 1) % 10, 10).unwrap() } else { c }).collect::<String>();
+    lang_byte_literals = |s| { let b = s.as_bytes(); let n = b.iter().filter(|&&x| x == b'a' || x == b',').count(); let h = b.iter().fold(5381u32, |h, &x| h.wrapping_mul(33) ^ x as u32); format!("{n} {h} {}", b.first().map_or(0, |x| *x)) };
+    lang_result_chain = |s| { fn step(s: &str) -> Result<(i32, &str), String> { let (h, t) = s.split_once(',').ok_or("no comma")?; let n: i32 = h.trim().parse().map_err(|e: std::num::ParseIntError| e.to_string())?; Ok((n, t)) } let r = step(s).and_then(|(n, t)| step(t).map(|(m, _)| n + m)).or_else(|e| if e == "no comma" { Ok(-1) } else { Err(e) }); format!("{r:?}") };
+    lang_error_trait = |s| { fn f(s: &str) -> Result<usize, Box<dyn std::error::Error>> { if s.is_empty() { return Err(Box::new(E("empty".into()))); } let n: usize = s.trim().parse()?; Ok(n) } match f(s) { Ok(n) => format!("ok{n}"), Err(e) => format!("err:{e}") } };
+    lang_sort_strings_by_key = |s| { let mut v: Vec<&str> = s.split(',').collect(); v.sort_by_key(|x| (x.len(), x.chars().next())); let mut w = v.clone(); w.sort_by(|a, b| b.cmp(a)); w.dedup(); format!("{v:?}{w:?}") };
+    lang_nested_closures_iter = |s| s.split(',').map(|p| p.chars().filter(|c| !c.is_whitespace()).map(|c| c.to_ascii_uppercase()).collect::<String>()).filter(|p| !p.is_empty()).enumerate().map(|(i, p)| format!("{i}={p}")).collect::<Vec<_>>().join("&");
+    lang_early_return_opt = |s| { fn first_two(s: &str) -> Option<(char, char)> { let mut it = s.chars(); let a = it.next()?; let b = it.next()?; if a == b { return None; } Some((a, b)) } format!("{:?}", first_two(s)) };
+    lang_const_generic = |s| { fn first_n<const N: usize>(s: &str) -> [char; N] { let mut a = ['_'; N]; for (i, c) in s.chars().take(N).enumerate() { a[i] = c; } a } format!("{:?}{:?}", first_n::<2>(s), first_n::<4>(s).len()) };
+    lang_where_clause_dispatch = |s| { fn show_all<I>(it: I) -> String where I: IntoIterator, I::Item: std::fmt::Display { it.into_iter().map(|x| x.to_string()).collect::<Vec<_>>().join("/") } format!("{}|{}|{}", show_all(s.chars()), show_all(vec![1, 2]), show_all(s.split(','))) };
+    lang_cmp_chain = |s| { let mut v: Vec<(usize, &str)> = s.split(',').map(|x| (x.len(), x)).collect(); v.sort_by(|a, b| a.0.cmp(&b.0).then_with(|| b.1.cmp(a.1))); let best = v.iter().max_by_key(|(l, _)| *l).map(|(_, x)| *x); format!("{v:?}{best:?}") };
+    lang_entry_count = |s| { let mut m: BTreeMap<char, Vec<usize>> = BTreeMap::new(); for (i, c) in s.chars().enumerate() { m.entry(c).or_default().push(i); } let top = m.iter().max_by_key(|(_, v)| v.len()).map(|(c, v)| (*c, v.len())); format!("{m:?}{top:?}") };
     // ---- String
     string_build = |s| { let mut o = String::with_capacity(4); o.push_str(s); o.push('!'); o.insert(0, '>'); o.insert_str(1, "ab"); o += "z"; o };
     string_pop_trunc = |s| { let mut o = s.to_string(); let p = o.pop(); let l = o.chars().count(); if l > 1 && o.is_char_boundary(1) { o.truncate(1); } format!("{o}{p:?}") };
